@@ -18,6 +18,7 @@ def reviewed : List String := [
   "dhcp4_spoofer.forceDecline:map[opts]",                     -- transient option map of an outgoing client message
   "dhcp4_spoofer.forceRelease:map[opts]",                     -- idem
   "dhcp4_spoofer.nakPacket:map[options]",                     -- transient option map encoded before the handler returns
+  "packet.Addrs:append(addr)",                                -- ICMP4Redirect.Addrs(): a view getter, aliasing by design (C16)
   "packet.DecodeQuestion:Question.Name",                      -- returned to the caller, converted with string(...) before being stored
   "packet.GetIP4DefaultGatewayAddr:Addr.MAC",                 -- OS probing, no packet involved
   "packet.ICMP6SendRouterAdvertisement:LinkLayerAddress{MAC}",-- transient option of an outgoing message (NIC MAC)
